@@ -203,7 +203,7 @@ def run(tier, seed):
     return {"coverage": coverage, "violations": violations}
 
 
-def replay(case):
+def _replay_single(case):
     loader.install_shims()
     ld, info = e3.replay_program(case["tier"], int(case["index"]))
     if ld.cls is None:
@@ -213,3 +213,15 @@ def replay(case):
         return None
     what = roundtrip(ld, e3.adaptor_for(ld.program), val)
     return f"[{info.ident}] value {val!r}: {what}\n{ld.program.node.xml()}" if what else None
+
+
+def replay(case):
+    what = _replay_single(case)
+    if what:
+        return what
+    if case.get("kind") in ("spelling",):
+        return None
+    what = e3.replay_whole(case["tier"], int(case["index"]), Judge())
+    if what or not case.get("shard"):
+        return what
+    return e3.replay_shard(case["tier"], case["shard"], Judge())
